@@ -37,26 +37,28 @@ class GetTxHash(Contract):
 
 
 # ---------------------------------------------------------------------------------------------- C14: the clearing step
-from spec.btc_lib import input_ops, script_ops   # noqa: E402
+from spec.btc_lib import script_ops, same_outpoint, TXIN   # noqa: E402
 
 
 @contract("comm/bitcoin.py", "_clear_all_but_last_op_from_scriptsig", serves=["C14"])
 class ClearAllButLastOp(Contract):
     """the repository's own part of the C14 transformation, per input (library calls: A-BTCLIB)"""
-    params = dict(txin=INT_)        # a transaction input, abstracted by a handle (spec/btc_lib.py)
+    params = dict(txin=TXIN)
     pure = True
-    assumptions = ["A-BTCLIB: CMutableTxIn.from_txin / list(CScript) / CScript(list) as assumed contracts over an abstract "
-                   "operation list (python-bitcoinlib is absent from the sandbox)"]
+    assumptions = ["A-BTCLIB: CMutableTxIn / CMutableTxIn.from_txin / list(CScript) / CScript(list) as assumed contracts over an "
+                   "abstract operation list (python-bitcoinlib is absent from the sandbox)"]
 
-    def script_was_not_empty(txin): return len(input_ops(txin)) > 0
-    def same_number_of_operations(result, txin): return len(script_ops(result.scriptSig)) == len(input_ops(txin))
+    def script_was_not_empty(txin): return len(script_ops(txin.scriptSig)) > 0
+    def same_number_of_operations(result, txin): return len(script_ops(result.scriptSig)) == len(script_ops(txin.scriptSig))
     def all_but_last_are_empty_pushes(result, txin):
-        return forall_int(0, len(input_ops(txin)) - 1, lambda k: script_ops(result.scriptSig)[k] == 0)
+        return forall_int(0, len(script_ops(txin.scriptSig)) - 1, lambda k: script_ops(result.scriptSig)[k] == 0)
     def last_operation_is_kept(result, txin):
-        return script_ops(result.scriptSig)[len(input_ops(txin)) - 1] == input_ops(txin)[len(input_ops(txin)) - 1]
-    def rest_of_the_input_is_a_copy(result, txin): return result.copy_of == txin
+        n = len(script_ops(txin.scriptSig))
+        return script_ops(result.scriptSig)[n - 1] == script_ops(txin.scriptSig)[n - 1]
+    def outpoint_and_sequence_number_are_kept(result, txin):
+        return same_outpoint(result.prevout, txin.prevout) and result.nSequence == txin.nSequence
     ensures = [script_was_not_empty, same_number_of_operations, all_but_last_are_empty_pushes, last_operation_is_kept,
-               rest_of_the_input_is_a_copy]
+               outpoint_and_sequence_number_are_kept]
     # "has an input with an empty script ... is answered -102": the helper must refuse, so that get_unsigned_tx raises
-    def script_is_empty(txin): return len(input_ops(txin)) == 0
+    def script_is_empty(txin): return len(script_ops(txin.scriptSig)) == 0
     raises = {"IndexError": Exc(when=script_is_empty)}
